@@ -283,7 +283,8 @@ void CircuitFlowGeneratorSolver<W>::undo_instruction(CircuitInstruction inst) {
 
         case GateType::MPAD:
             // Pads.
-            for (auto t : inst.targets) {
+            for (size_t k = inst.targets.size(); k--;) {
+                auto t = inst.targets[k];
                 num_measurements_in_past--;
                 if (!t.is_qubit_target()) {
                     throw std::invalid_argument("Bad target in " + inst.str());
